@@ -503,6 +503,19 @@ func genC16(g *G) {
 	if g.Thorough() {
 		g.Emit(J{"op": "obs.encode", "obs": cdcRndObsJ(g, 10000), "sigma": 3}, "obs-encode", "obs-10000")
 	}
+	{
+		// exactly at (and one below) the documented limit on the number of stream values: all ids distinct, none nil
+		for _, n := range []int{llo.MaxObservationStreamValuesLength - 1, llo.MaxObservationStreamValuesLength} {
+			o := cdcRndObsJ(g, 0)
+			vals := make([]any, n)
+			base := g.R.Uint32() >> 1
+			for k, pos := range g.R.Perm(n) {
+				vals[pos] = J{"sid": S(base + uint32(k)), "v": svJ(cdcRndSV(g, false))}
+			}
+			o["values"] = vals
+			g.Emit(J{"op": "obs.encode", "obs": o, "sigma": 1 + g.R.Intn(5)}, "obs-encode", "obs-at-value-limit")
+		}
+	}
 	for _, ts := range []string{"0", "1", "9223372036854775807", "9223372036854775808", "18446744073709551615"} {
 		g.Emit(J{"op": "obs.encode", "obs": J{"attested": nil, "retire": false, "ts": ts, "removes": []any{}, "updates": []any{}, "values": []any{}}}, "obs-encode", "obs-ts-boundary")
 	}
@@ -513,7 +526,9 @@ func genC16(g *G) {
 				e.(J)["v"] = svJ(cdcRndSV(g, false))
 			}
 		}
+		done := watchOp(J{"op": "obs.encode", "obs": o, "sigma": 1})
 		b, err := obsCodec.Encode(jObs(normalise(o)))
+		done()
 		if err != nil {
 			panic(err)
 		}
@@ -587,7 +602,10 @@ func genC16(g *G) {
 		if g.R.Intn(3) == 0 {
 			b = cdcRndBytes(g, 60)
 		} else {
-			enc, err := obsCodec.Encode(jObs(normalise(cdcRndObsJ(g, g.R.Intn(5)))))
+			oj := cdcRndObsJ(g, g.R.Intn(5))
+			done := watchOp(J{"op": "obs.encode", "obs": oj, "sigma": 1})
+			enc, err := obsCodec.Encode(jObs(normalise(oj)))
+			done()
 			if err != nil {
 				panic(err)
 			}
